@@ -97,7 +97,7 @@ App0 == [ c |-> [pc |-> 1, busy |-> ""], s |-> [pc |-> 1, busy |-> ""] ]
 
 MInit ==
   /\ c2s = <<>> /\ s2c = <<>>
-  /\ car = [closeSend |-> FALSE]
+  /\ car = [closeSend |-> FALSE, failed |-> FALSE]
   /\ cli = [up |-> TRUE, lastID |-> 0, creating |-> 0, busy |-> 0, closing |-> FALSE]
   /\ cs = [r \in RPCs |-> CS0]
   /\ srv = [up |-> TRUE, lastSeen |-> 0, stopping |-> FALSE, busy |-> 0]
@@ -158,6 +158,11 @@ SrvSkipOp(r) ==
   /\ OSkip
   /\ UNCHANGED <<c2s, s2c, car, cli, cs, srv, ss, nf>>
 
+\* the tunnel client can still put frames on the carrier (after the transport failed every Send returns EOF)
+\* (a reverse tunnel's client is the network SERVER: after its Close it can still send - the cancel notices of
+\* its RPCs race with the opening RPC's handler returning - until that handler has returned)
+C2SUp == ~car.failed /\ (IF Dir = "fwd" THEN cli.up ELSE ~car.closeSend)
+
 \* newStream: allocateStream under streamCreation (:290-343): id allocation and table insert
 CliAlloc(r) ==
   /\ CBusy(r) = "new" /\ cs[r].id = 0 /\ cli.creating = 0 /\ cli.up
@@ -168,12 +173,22 @@ CliAlloc(r) ==
 
 \* ... the new_stream frame is sent while the creation lock is still held; the watcher is spawned
 CliSendNew(r) ==
-  /\ CBusy(r) = "new" /\ cli.creating = r
+  /\ CBusy(r) = "new" /\ cli.creating = r /\ C2SUp
   /\ c2s' = Append(c2s, Frame(cs[r].id, "new", 0, 0, 0, r, NoMid))
   /\ cli' = [cli EXCEPT !.creating = 0]
   /\ SetC(r, [cs[r] EXCEPT !.watch = "wait", !.snd = "idle"])
   /\ OWireSend(EvWire("wire.send", "c2s", Frame(cs[r].id, "new", 0, 0, 0, r, NoMid)))
   /\ UNCHANGED <<s2c, car, srv, ss, app, nf>>
+
+\* ... the send of the new_stream frame fails (the channel was closed or the transport failed meanwhile):
+\* the stream is removed again and NewStream returns the error (:329-332)
+CliSendNewFail(r) ==
+  /\ CBusy(r) = "new" /\ cli.creating = r /\ ~C2SUp
+  /\ cli' = [cli EXCEPT !.creating = 0]
+  /\ SetC(r, [cs[r] EXCEPT !.intable = FALSE])
+  /\ app' = [app EXCEPT ![r].c = [pc |-> Len(CScript[r]) + 1, busy |-> ""]]
+  /\ OOpRet(EvOpRet("c", r, "new", "err", -1, 0))
+  /\ UNCHANGED <<c2s, s2c, car, srv, ss, nf>>
 
 CliNewRet(r) ==
   /\ CBusy(r) = "new" /\ cs[r].id # 0 /\ cli.creating # r
@@ -198,7 +213,7 @@ CliReserve(r) ==
 
 \* ... then emit request_message{size,data} or more_request_data
 CliEmit(r) ==
-  /\ cs[r].snd = "res" /\ cli.up
+  /\ cs[r].snd = "res" /\ C2SUp
   /\ LET c == cs[r]
          f == Frame(c.id, IF c.sfirst THEN "msg" ELSE "more", IF c.sfirst THEN c.ssize ELSE 0, c.sres, 0, 0,
                     <<r, "c", c.nsent - 1>>)
@@ -210,7 +225,7 @@ CliEmit(r) ==
 
 \* ... the channel is closed (CloseSend was called / the stream's context ended): the carrier refuses the frame
 CliEmitFail(r) ==
-  /\ cs[r].snd = "res" /\ ~cli.up
+  /\ cs[r].snd = "res" /\ ~C2SUp
   /\ SetC(r, [cs[r] EXCEPT !.snd = "idle", !.sfailed = TRUE, !.sres = 0])
   /\ CDoneOp(r)
   /\ OOpRet(EvOpRet("c", r, "send", "err", 1, cs[r].nsent - 1))
@@ -233,14 +248,14 @@ CliSendRet(r) ==
 
 \* CloseSend (:646-667): refused once the stream is done or already half-closed
 CliHalf(r) ==
-  /\ CBusy(r) = "half" /\ ~cs[r].published /\ ~cs[r].half /\ cli.up
+  /\ CBusy(r) = "half" /\ ~cs[r].published /\ ~cs[r].half /\ C2SUp
   /\ c2s' = Append(c2s, Frame(cs[r].id, "half", 0, 0, 0, 0, NoMid))
   /\ SetC(r, [cs[r] EXCEPT !.half = TRUE])
   /\ OWireSend(EvWire("wire.send", "c2s", Frame(cs[r].id, "half", 0, 0, 0, 0, NoMid)))
   /\ UNCHANGED <<s2c, car, cli, srv, ss, app, nf>>
 
 CliHalfRet(r) ==
-  /\ CBusy(r) = "half" /\ (cs[r].half \/ cs[r].published \/ ~cli.up)
+  /\ CBusy(r) = "half" /\ (cs[r].half \/ cs[r].published \/ ~C2SUp)
   /\ CDoneOp(r)
   /\ OOpRet(EvOpRet("c", r, "half", IF cs[r].half THEN "ok" ELSE "err", IF cs[r].half THEN 0 ELSE -1, 0))
   /\ UNCHANGED <<c2s, s2c, car, cli, cs, srv, ss, nf>>
@@ -262,7 +277,7 @@ CliDequeue(r) ==
 \* ... then, with the lock released, send the window update unless the stream is done (:443-454)
 CliCredit(r) ==
   /\ cs[r].credit > 0
-  /\ IF cs[r].done # "" \/ ~cli.up
+  /\ IF cs[r].done # "" \/ ~C2SUp
      THEN /\ OSkip /\ UNCHANGED c2s
      ELSE /\ c2s' = Append(c2s, Frame(cs[r].id, "wu", 0, cs[r].credit, 0, 0, NoMid))
           /\ OWireSend(EvWire("wire.send", "c2s", Frame(cs[r].id, "wu", 0, cs[r].credit, 0, 0, NoMid)))
@@ -304,7 +319,7 @@ CliFinStep(r) ==
 
 \* the receive loop takes the next frame (:501-541, :786-829)   [driver action: frame delivery]
 CliDeliver ==
-  /\ cli.up /\ cli.busy = 0 /\ s2c # <<>>
+  /\ cli.up /\ ~car.failed /\ cli.busy = 0 /\ s2c # <<>>
   /\ LET f == Head(s2c)
          r == IF \E x \in RPCs : cs[x].id = f.sid /\ cs[x].intable
               THEN CHOOSE x \in RPCs : cs[x].id = f.sid /\ cs[x].intable ELSE 0
@@ -353,7 +368,7 @@ CliCancelRcv(r) ==
 CliEmitCancel(r) ==
   /\ cs[r].cancelOwed
   /\ SetC(r, [cs[r] EXCEPT !.cancelOwed = FALSE])
-  /\ IF cli.up
+  /\ IF C2SUp
      THEN /\ c2s' = Append(c2s, Frame(cs[r].id, "cancel", 0, 0, 0, 0, NoMid))
           /\ OWireSend(EvWire("wire.send", "c2s", Frame(cs[r].id, "cancel", 0, 0, 0, 0, NoMid)))
      ELSE /\ UNCHANGED c2s /\ OSkip      \* the send fails on a closed channel
@@ -381,12 +396,39 @@ CtlClose ==
 CliCloseDo ==
   /\ cli.closing /\ cli.up
   /\ cli' = [cli EXCEPT !.up = FALSE]
-  /\ car' = [car EXCEPT !.closeSend = TRUE]
+  /\ car' = IF Dir = "fwd" THEN [car EXCEPT !.closeSend = TRUE] ELSE car
   /\ cs' = [r \in RPCs |-> IF cs[r].intable
                            THEN [cs[r] EXCEPT !.intable = FALSE, !.ctx = IF @ = "live" THEN "tunnel" ELSE @]
                            ELSE cs[r]]
   /\ OTun([ev |-> "tun", what |-> "chdone", cls |-> "ok"])
   /\ UNCHANGED <<c2s, s2c, srv, ss, app, nf>>
+
+\* reverse tunnel: the opening RPC's handler (openReverseTunnel) has seen Done() and returns; from here on gRPC
+\* refuses what either end still sends and the tunnel server's Recv ends after the frames already sent
+RevHandlerReturn ==
+  /\ Dir = "rev" /\ ~cli.up /\ ~car.closeSend
+  /\ car' = [car EXCEPT !.closeSend = TRUE]
+  /\ OSkip
+  /\ UNCHANGED <<c2s, s2c, cli, cs, srv, ss, app, nf>>
+
+\* the transport fails (connection lost): both ends' Recv fail, every Send returns an error, frames in
+\* flight are never delivered   [driver fault]
+CarFail ==
+  /\ "fail" \in Faults /\ nf < MaxFaults /\ ~car.failed /\ (cli.up \/ srv.up)
+  /\ car' = [car EXCEPT !.failed = TRUE]
+  /\ nf' = nf + 1
+  /\ OCar([ev |-> "car", what |-> "fail"])
+  /\ UNCHANGED <<c2s, s2c, cli, cs, srv, ss, app>>
+
+\* the receive loop's Recv fails: close(err) - as Close() but with the error, and nothing to tear down
+CliFailDo ==
+  /\ car.failed /\ cli.up /\ cli.busy = 0
+  /\ cli' = [cli EXCEPT !.up = FALSE]
+  /\ cs' = [r \in RPCs |-> IF cs[r].intable
+                           THEN [cs[r] EXCEPT !.intable = FALSE, !.ctx = IF @ = "live" THEN "tunnel" ELSE @]
+                           ELSE cs[r]]
+  /\ OTun([ev |-> "tun", what |-> "chdone", cls |-> "err"])
+  /\ UNCHANGED <<c2s, s2c, car, srv, ss, app, nf>>
 
 ---------------------------------------------------------------------------
 (* Tunnel server and handler application (tunnel_server.go)                *)
@@ -395,11 +437,11 @@ SrvLiveSid(s) == IF \E x \in RPCs : cs[x].id = s /\ ss[x].st = "live"
                  THEN CHOOSE x \in RPCs : cs[x].id = s /\ ss[x].st = "live" ELSE 0
 
 \* the tunnel server can still put frames on the carrier
-S2CUp == srv.up /\ ~(Dir = "rev" /\ car.closeSend)
+S2CUp == srv.up /\ ~(Dir = "rev" /\ car.closeSend) /\ ~car.failed
 
 \* the serve loop takes the next frame (:71-112, :340-368)   [driver action: frame delivery]
 SrvDeliver ==
-  /\ srv.up /\ srv.busy = 0 /\ c2s # <<>>
+  /\ srv.up /\ ~car.failed /\ srv.busy = 0 /\ c2s # <<>>
   /\ LET f == Head(c2s)
          r == SrvLiveSid(f.sid)
      IN /\ c2s' = Tail(c2s)
@@ -433,6 +475,14 @@ SrvServeExit ==
   /\ srv' = [srv EXCEPT !.up = FALSE]
   /\ ss' = [r \in RPCs |-> IF ss[r].st # "none" /\ ss[r].ctx = "live" THEN [ss[r] EXCEPT !.ctx = "tunnel"] ELSE ss[r]]
   /\ OTun([ev |-> "tun", what |-> "serveret", cls |-> "ok"])
+  /\ UNCHANGED <<c2s, s2c, car, cli, cs, app, nf>>
+
+\* the transport failed: the serve loop's Recv fails, serve returns the error; same deferred cancel
+SrvFailExit ==
+  /\ car.failed /\ srv.up /\ srv.busy = 0
+  /\ srv' = [srv EXCEPT !.up = FALSE]
+  /\ ss' = [r \in RPCs |-> IF ss[r].st # "none" /\ ss[r].ctx = "live" THEN [ss[r] EXCEPT !.ctx = "tunnel"] ELSE ss[r]]
+  /\ OTun([ev |-> "tun", what |-> "serveret", cls |-> "err"])
   /\ UNCHANGED <<c2s, s2c, car, cli, cs, app, nf>>
 
 \* the handler goroutine starts (:572-603)
@@ -658,6 +708,9 @@ InternalEnabled ==
   \/ \E r \in RPCs : InternalOf(r)
   \/ cli.closing /\ cli.up
   \/ srv.up /\ srv.busy = 0 /\ c2s = <<>> /\ car.closeSend
+  \/ car.failed /\ cli.up /\ cli.busy = 0
+  \/ car.failed /\ srv.up /\ srv.busy = 0
+  \/ Dir = "rev" /\ ~cli.up /\ ~car.closeSend
 
 Blocked ==
   SetToSeq({ <<"c", r, "m", CBusy(r)>> : r \in { x \in RPCs : CBusy(x) # "" } }
@@ -689,13 +742,14 @@ Internal ==
        \/ SrvEmitHdr(r) \/ SrvReserve(r) \/ SrvEmit(r) \/ SrvSendAbort(r) \/ SrvSendRet(r)
        \/ SrvRecvCtx(r) \/ SrvDequeue(r) \/ SrvCredit(r) \/ SrvRecvMsgRet(r) \/ SrvRecvEnd(r)
        \/ SrvFinStep(r, "L") \/ SrvFinStep(r, "H") \/ HandlerRetDone(r) \/ SrvEmitClose(r) \/ SrvWatchFire(r)
-  \/ CliCloseDo
-  \/ SrvServeExit
+  \/ CliCloseDo \/ CliFailDo \/ RevHandlerReturn
+  \/ SrvServeExit \/ SrvFailExit
+  \/ \E r \in RPCs : CliSendNewFail(r)
 
 Driver ==
   \/ \E r \in RPCs : CliOpStart(r) \/ SrvOpStart(r) \/ Cancel(r)
   \/ CliDeliver \/ SrvDeliver
-  \/ CtlClose \/ Shutdown
+  \/ CtlClose \/ Shutdown \/ CarFail
 
 \* In the stepped semantics internal actions are urgent: driver actions are taken only at
 \* quiescent points, right after the quiescence report (this is how the harness executes).
@@ -742,7 +796,11 @@ Next ==
   \/ \E r \in RPCs : SrvEmitClose(r)
   \/ \E r \in RPCs : SrvWatchFire(r)
   \/ CliCloseDo
+  \/ CliFailDo
+  \/ RevHandlerReturn
   \/ SrvServeExit
+  \/ SrvFailExit
+  \/ \E r \in RPCs : CliSendNewFail(r)
   \/ Quiesce
   \/ DrvOK /\ \E r \in RPCs : CliOpStart(r)
   \/ DrvOK /\ \E r \in RPCs : SrvOpStart(r)
@@ -751,6 +809,7 @@ Next ==
   \/ DrvOK /\ SrvDeliver
   \/ DrvOK /\ CtlClose
   \/ DrvOK /\ Shutdown
+  \/ DrvOK /\ CarFail
 
 Spec == Init /\ [][Next]_vars
 
@@ -795,7 +854,7 @@ Queued(rq) == LET RECURSIVE S(_)
 ConservationC2S ==
   \A r \in RPCs :
      (cs[r].id # 0 /\ cs[r].done = "" /\ cs[r].ctx = "live" /\ ss[r].st = "live" /\ ~ss[r].rclosed /\ ~ss[r].rcancelled
-        /\ ss[r].half = "" /\ ss[r].ctx = "live" /\ srv.up /\ cli.up) =>
+        /\ ss[r].half = "" /\ ss[r].ctx = "live" /\ srv.up /\ cli.up /\ ~car.failed) =>
         cs[r].swin + cs[r].sres + InFlight(c2s, cs[r].id, {"msg", "more"}) + Queued(ss[r].rq)
           + ss[r].credit + InFlight(s2c, cs[r].id, {"wu"}) = W
 
